@@ -24,6 +24,7 @@ type convRec struct {
 
 func TestC20(t *testing.T) {
 	chainPropertyOpt(t, "C20", false, []int{1, 1, 2, 2}, func(r *Runner, fail func(class, witness, detail string)) Hooks {
+		rateTable(fail)
 		bal6 := map[common.Hash]*big.Int{}
 		bal7 := map[common.Hash]*big.Int{}
 		return Hooks{AfterHead: func(w *World, n *Node, bi *BlockInfo, reorg bool) {
@@ -260,4 +261,61 @@ func TestC20(t *testing.T) {
 			simkit.Global.Inc("conversion_blocks_checked")
 		}}
 	})
+}
+
+// rateTable checks the pure rate function on both sides of every conversion-related fork height F (a fork "at block F"
+// is in force from F on): with everything else equal the rate at F equals the rate at F+1 and the rate at F-1 equals the
+// rate at F-2, in both directions, and converting back and forth at that fixed rate never yields more than was put in.
+func rateTable(fail func(class, witness, detail string)) {
+	forks := []struct {
+		name string
+		at   uint64
+	}{{"kawpow", params.KawPowForkBlock}, {"kquai-reset", params.KQuaiResetAfterKawPowForkBlock}, {"sha-equivalent-difficulty", params.ShaEquivalentDifficultyForkBlock}}
+	mk := func(ptn uint64, variant int) *types.WorkObject {
+		wo := types.EmptyWorkObject(common.ZONE_CTX)
+		h := wo.WorkObjectHeader()
+		h.SetPrimeTerminusNumber(new(big.Int).SetUint64(ptn))
+		h.SetNumber(new(big.Int).SetUint64(3_000_000))
+		two32 := new(big.Int).Lsh(common.Big1, 32)
+		sc := new(big.Int).Mul(two32, big.NewInt(int64(1+variant%3)))
+		sh := new(big.Int).Mul(two32, big.NewInt(int64(1+variant/3%3)))
+		shaDiff := new(big.Int).Mul(params.InitialShaDiffMultiple, new(big.Int).Mul(params.MinDifficultyForShaEquivalentDifficulty, big.NewInt(int64(3+variant))))
+		h.SetScryptDiffAndCount(types.NewPowShareDiffAndCount(big.NewInt(1_000_000), sc, big.NewInt(0)))
+		h.SetShaDiffAndCount(types.NewPowShareDiffAndCount(shaDiff, sh, big.NewInt(0)))
+		return wo
+	}
+	rate := new(big.Int).Set(params.ExchangeRate)
+	qi := big.NewInt(1_000_000_000)                                   // 1e6 Qi in qits
+	quai := new(big.Int).Mul(big.NewInt(1_000_000), big.NewInt(1e18)) // 1e6 Quai
+	for _, f := range forks {
+		for variant := 0; variant < 9; variant++ {
+			diff := new(big.Int).Mul(big.NewInt(1_000_000_000_000), big.NewInt(int64(1+variant)))
+			q := func(ptn uint64) (*big.Int, *big.Int) {
+				wo := mk(ptn, variant)
+				return misc.QiToQuai(wo, rate, diff, qi), misc.QuaiToQi(wo, rate, diff, quai)
+			}
+			for _, pair := range [][2]uint64{{f.at, f.at + 1}, {f.at - 1, f.at - 2}} {
+				a1, b1 := q(pair[0])
+				a2, b2 := q(pair[1])
+				simkit.Global.Inc("rate_fork_sides_compared")
+				if a1.Cmp(a2) != 0 || b1.Cmp(b2) != 0 {
+					side := "at-and-after"
+					if pair[0] < f.at {
+						side = "before"
+					}
+					fail("rate-fork-sides", fmt.Sprintf("fork=%s side=%s", f.name, side), fmt.Sprintf("with identical difficulty, rate and share counts the conversion of %v qits gives %v at prime terminus %d and %v at %d; %v its give %v and %v", qi, a1, pair[0], a2, pair[1], quai, b1, b2))
+					return
+				}
+			}
+			for _, ptn := range []uint64{f.at - 1, f.at, f.at + 1} {
+				wo := mk(ptn, variant)
+				back := misc.QuaiToQi(wo, rate, diff, misc.QiToQuai(wo, rate, diff, qi))
+				back2 := misc.QiToQuai(wo, rate, diff, misc.QuaiToQi(wo, rate, diff, quai))
+				if back.Cmp(qi) > 0 || back2.Cmp(quai) > 0 {
+					fail("round-trip", fmt.Sprintf("fork=%s", f.name), fmt.Sprintf("at prime terminus %d: %v qits -> quai -> %v qits; %v its -> qi -> %v its", ptn, qi, back, quai, back2))
+					return
+				}
+			}
+		}
+	}
 }
